@@ -82,9 +82,20 @@ def evaluate(case):
     t = case["t"]
     files = materialise(t)
     bad = []
+    # two spellings of the same page directory, chosen by the case's hash: (1) the project is written in Latin-1 and every page holds
+    # a non-ASCII letter (`encoding: iso-8859-1`); (2) the root's ordered_subpage list also names index.md itself (harmless)
+    h = zlib.crc32(("spelling" + json.dumps(t, sort_keys=True)).encode())      # independent of the hash that slices the quick tier
+    latin, ordidx = bool(h & 1), bool(h & 2)
+    if ordidx and "pages/index.md" in files:
+        txt = files["pages/index.md"]
+        files["pages/index.md"] = txt.replace("---\n", "---\nordered_subpage: index.md\n", 1)
+    extra = {}
+    if latin:
+        files = {k: ((v + "\ncaf\u00e9 \u00fcber\n").encode("iso-8859-1") if (k.startswith("pages/") and k.endswith(".md") and isinstance(v, str)) else v) for k, v in files.items()}
+        extra = {"encoding": "iso-8859-1"}
     with fordrun.tempdir("verif-c17-") as d:
         fordrun.write_files(d, files)
-        ok, out, err = site.run_inproc(d, {"page_dir": "./pages", "media_dir": "./media", "search": False})
+        ok, out, err = site.run_inproc(d, dict({"page_dir": "./pages", "media_dir": "./media", "search": False}, **extra))
         if not ok:
             return {"bad": [("abort", f"FORD failed: {type(err).__name__}: {err}")], "files": files, "out": out[-300:]}
         pdir = os.path.join(d, "doc", "page")
